@@ -145,7 +145,7 @@ def is_topological(schema, order, deps):
 
 def gen_opts(max_decls):
     return gen.GenOpts(allow_greedy=False, big_sizes=False, min_decls=3, max_decls=max_decls, max_members=4,
-                       const_exprs=True, const_ref_bias=2, allow_unset=False, chain_focus=3)
+                       const_exprs=True, const_ref_bias=2, allow_unset=False, chain_focus=3, enum_aliases=False)
 
 
 @st.composite
